@@ -264,7 +264,14 @@ func generateIsolated(s *Stream, seed int64, n int, thorough bool) ([]Case, int,
 	var crashed []Case // what is known of the items that killed a worker, should the cap be hit
 	hangs := map[string]bool{}
 	_ = hangs
-	for attempt := 0; attempt < 60; attempt++ {
+	nhung := 0
+	for attempt := 0; attempt < 60 && nhung < 4; attempt++ {
+		// the first hang is given the full budget (no false alarm on a loaded machine); once one
+		// item did hang, the tree is in violation anyway and the next ones are cut short
+		busyLimit, blockedLimit := hangTimeout, blockedTimeout
+		if nhung > 0 {
+			busyLimit, blockedLimit = 45*time.Second, 45*time.Second
+		}
 		args := []string{"-worker", "-stream", s.Name, "-seed", fmt.Sprint(seed), "-n", fmt.Sprint(n),
 			"-skip", strings.Join(skip, ","), "-progress", progress, "-cases", casesFile}
 		if thorough {
@@ -306,8 +313,8 @@ func generateIsolated(s *Stream, seed int64, n int, thorough bool) ([]Case, int,
 						}
 						inItem = strings.HasPrefix(t, "BEGIN\t")
 					}
-					busy := inItem && cpuOK && cpu-cpuAtChange > hangTimeout
-					blocked := inItem && time.Since(lastChange) > blockedTimeout && (!cpuOK || cpu-cpuAtChange < 10*time.Second)
+					busy := inItem && cpuOK && cpu-cpuAtChange > busyLimit
+					blocked := inItem && time.Since(lastChange) > blockedLimit && (!cpuOK || cpu-cpuAtChange < 10*time.Second)
 					if busy || blocked || time.Since(lastChange) > absoluteTimeout {
 						hung = true
 						cmd.Process.Kill()
@@ -348,6 +355,7 @@ func generateIsolated(s *Stream, seed int64, n int, thorough bool) ([]Case, int,
 		}
 		parts := strings.SplitN(last, "\t", 3)
 		if hung {
+			nhung++
 			skip = append(skip, parts[1]+"h")
 		} else {
 			skip = append(skip, parts[1])
